@@ -54,11 +54,37 @@ static void hex(char *o, size_t cap, const uint8_t *p, unsigned n) {
     }
 }
 
-/* canonical tagged encoding through one of the library's entry points */
+/* distance used by the "via add" entry points (set per case) */
+static uint64_t g_add_d;
+
+/* canonical tagged encoding through one of the library's entry points:
+ *   0 Put64   1 Put64FixedWidth(varintTaggedLen(v))
+ *   2 Put64(v - d) then varintTaggedAddGrow(+d)   (key reached by counting up)
+ *   3 Put64(v + d) then varintTaggedAddGrow(-d)   (key reached by counting
+ *     down, possibly shrinking across a length boundary)
+ * A key that was produced by the in-place add is a tagged encoding of its
+ * value like any other, so it must sort and compare the same way. */
 static unsigned enc(uint8_t *dst, uint64_t v, int fixed) {
-    memset(dst, 0xCC, 9);
-    if (fixed) {
+    memset(dst, 0xCC, 16);
+    if (fixed == 1) {
         return varintTaggedPut64FixedWidth(dst, v, varintTaggedLen(v));
+    }
+    if (fixed >= 2 && v <= (uint64_t)INT64_MAX) {
+        uint64_t d = g_add_d;
+        if (fixed == 2 && d <= v) {
+            varintTaggedPut64(dst, v - d);
+            unsigned w = varintTaggedAddGrow(dst, (int64_t)d);
+            if (w) {
+                return w;
+            }
+        } else if (fixed == 3 && d <= (uint64_t)INT64_MAX - v) {
+            varintTaggedPut64(dst, v + d);
+            unsigned w = varintTaggedAddGrow(dst, -(int64_t)d);
+            if (w) {
+                return w;
+            }
+        }
+        memset(dst, 0xCC, 16);
     }
     return varintTaggedPut64(dst, v);
 }
@@ -69,7 +95,9 @@ static unsigned enc(uint8_t *dst, uint64_t v, int fixed) {
 static int check_pair(vf_report *rep, uint64_t a, uint64_t b, int fixed,
                       unsigned *pla, unsigned *plb, int *onebyte) {
     uint8_t ea[16], eb[16];
-    unsigned la = enc(ea, a, fixed), lb = enc(eb, b, fixed);
+    /* in the via-add modes a is reached by an in-place add and b is written
+     * directly, so equal values compare an add-produced key with a fresh one */
+    unsigned la = enc(ea, a, fixed), lb = enc(eb, b, fixed >= 2 ? 0 : fixed);
     *pla = la;
     *plb = lb;
     *onebyte = 0;
@@ -125,7 +153,7 @@ static int check_tuple(vf_report *rep, const uint64_t *ta, const uint64_t *tb,
     unsigned LA = 0, LB = 0;
     for (unsigned i = 0; i < arity; i++) {
         LA += enc(ca + LA, ta[i], fixed);
-        LB += enc(cb + LB, tb[i], fixed);
+        LB += enc(cb + LB, tb[i], fixed >= 2 ? 0 : fixed);
         if (LA > 36 || LB > 36) {
             vf_fail(rep, "tagged.tuple", "range",
                     "concatenation of %u keys is %u / %u bytes long", i + 1, LA,
@@ -168,12 +196,21 @@ static int check_tuple(vf_report *rep, const uint64_t *ta, const uint64_t *tb,
 void vf_run(vf_rd *r, vf_report *rep) {
     unsigned head = vf_u8(r);
     unsigned arity = 1 + (head & 3);
-    int fixed = (head >> 2) & 1;
+    int fixed = (head >> 2) & 3;
+    {
+        /* distance for the via-add entry points: small, or large enough to
+         * cross one or several length boundaries */
+        static const uint64_t dd[4] = {1, 241, 70000, 1ULL << 33};
+        g_add_d = dd[(head >> 4) & 3] + ((head >> 6) & 3);
+    }
     uint64_t ta[4], tb[4];
     int nontriv = 0;
     uint64_t h = vf_mix(arity, (uint64_t)fixed);
     vf_desc(rep, "arity=%u entry=%s", arity,
-            fixed ? "Put64FixedWidth" : "Put64");
+            fixed == 0   ? "Put64"
+            : fixed == 1 ? "Put64FixedWidth"
+            : fixed == 2 ? "Put64+AddGrow(+d)"
+                         : "Put64+AddGrow(-d)");
     for (unsigned i = 0; i < arity; i++) {
         unsigned kb = vf_u8(r);
         unsigned kind = kb & 7;
